@@ -150,7 +150,8 @@ def run_job(job):
             shape=dict(pl.get("shape", {}), harness=name),
             cls="%s:%s" % (pl.get("cls_prefix", os.path.splitext(os.path.basename(path))[0]), name),
             witness=dict(driver="py:%s:%s" % (pl["file"][:-3].replace("/", "."), "replay_" + name),
-                         args=args, call_text=(call[1] if call else None))))
+                         args=args, call_text=(call[1] if call else None),
+                         env={k: str(v) for k, v in (pl.get("env") or {}).items()})))
         return [res]
     if verdict == "confirmed":
         # reachability twin: must be refuted
